@@ -134,3 +134,12 @@ func zzSign(w *zzWorld, signer int, claimAddr string, pkt *drand.GossipPacket, t
 }
 
 var _ = zz.Bool
+
+// ZZSign signs a gossip packet over the given terms with a key pair (exported for harnesses in other packages).
+func ZZSign(kp *key.Pair, beaconID string, pkt *drand.GossipPacket, terms *drand.ProposalTerms) []byte {
+	sig, err := kp.Scheme().AuthScheme.Sign(kp.Key, messageForSigning(beaconID, pkt, terms))
+	if err != nil {
+		panic(err)
+	}
+	return sig
+}
